@@ -8,6 +8,7 @@ import "fmt"
 // ModelRun is the expected result of one run.
 type ModelRun struct {
 	Keys   []string // expected event keys, in order
+	Depths []int    // nesting depth of the node each key belongs to (0 = the root itself)
 	Action string   // expected action ("" when an error is expected)
 	ErrID  string   // id of the scripted error that must end the run ("" = success)
 	Log    []string // expected store visit log (cumulative when the store is reused)
@@ -19,6 +20,7 @@ type Model struct {
 	visits []int
 	log    []string
 	steps  int
+	depth  int
 }
 
 func NewModel(sc *Scenario) *Model { return &Model{sc: sc, visits: make([]int, len(sc.Nodes))} }
@@ -69,13 +71,19 @@ func (m *Model) Run() ModelRun {
 func (m *Model) node(id int, r *ModelRun) (action string, errID string) {
 	s := &m.sc.Nodes[id]
 	if s.Kind == KFlow {
-		return m.flow(s.Flow, r)
+		m.depth++
+		a, e := m.flow(s.Flow, r)
+		m.depth--
+		return a, e
 	}
 	m.steps++
 	v := m.visits[id]
 	m.visits[id]++
 	sc := scriptOf(s, v)
-	key := func(phase string, att int) string { return fmt.Sprintf("%d.%d.%s.%d", id, v, phase, att) }
+	key := func(phase string, att int) string {
+		r.Depths = append(r.Depths, m.depth)
+		return fmt.Sprintf("%d.%d.%s.%d", id, v, phase, att)
+	}
 	r.Keys = append(r.Keys, key("prep", 0))
 	if sc.PrepErr {
 		return "", errID2(id, v, "prep", 0)
